@@ -5,5 +5,18 @@ class Inconclusive(Exception):
     pass
 
 
-PRE = {}
-EXTRA = {}
+def _accept_tables(tier, seed):
+    import vgen
+    stats = vgen.gen_accept()
+    _STATS["accept"] = stats
+    return []
+
+
+_STATS = {}
+PRE = {"C01": _accept_tables, "C02": _accept_tables, "C03": _accept_tables}
+EXTRA = {
+    "C01": lambda: {"acceptance_table": _STATS.get("accept"),
+                    "acceptance_table_source": "real parser + HIR diagnostics of /repo run natively by /verif/extract on one generated program (one statement per operator/type triple)"},
+    "C02": lambda: {"acceptance_table": _STATS.get("accept")},
+    "C03": lambda: {"acceptance_table": _STATS.get("accept")},
+}
